@@ -174,6 +174,13 @@ pub struct Phase {
     pub open_first:     Vec<usize>,
     /// Holds that must become occupied during this phase (they are opened once they all are, or once everything is quiet)
     pub occupy:         Vec<usize>,
+    /// The reconfiguration uses the public eager `set_max_threads` (which must itself get pending work going)
+    pub eager:          bool,
+    /// While the `occupy` holds are closed, everything on the objects that are not held must complete (C10)
+    pub free_must_complete: bool,
+    /// Lower the maximum to this value and despawn WHILE the `occupy` holds are occupied (the retiring threads are busy and go on
+    /// to make scheduling calls once the holds are opened); the call must return (C17)
+    pub lower_while_busy: Option<usize>,
 }
 
 #[derive(Clone, Debug)]
@@ -193,6 +200,9 @@ pub struct PipeDef {
     /// The scripted stream stores the waker before it looks at its state (like AtomicWaker users do), so it still holds a
     /// waker when it reports an item or the end
     pub register_first: bool,
+    /// The processing closure of this pipe owns the feeding end of that other pipe's input: when the closure is destroyed, the other
+    /// pipe's input ends (a forwarding chain)
+    pub chain_to:   Option<usize>,
 }
 
 #[derive(Clone, Debug)]
